@@ -633,6 +633,94 @@ def post_inplace(ex, finished, extra_obs):
     return {'returns_self': n}
 
 
+def post_addsub(ex, finished, extra_obs):
+    """A + B, A - B and their in-place forms (doc/source/matrices.rst): two
+    matrices must have the same size unless one of them is 1 by 1 (for the
+    in-place forms: unless B is 1 by 1, the size of A never changes); the
+    result has the size of the operand that is not 1 by 1 and typecode
+    max(tc(A), tc(B))."""
+    summ = post_inplace(ex, finished, extra_obs)
+    ob = mk_ob(ex, extra_obs)
+    a, b = ex.objs['self'], ex.objs['other']
+    both = z3.And(a.ismat, b.ismat)
+    same = z3.And(a.nrows == b.nrows, a.ncols == b.ncols)
+    a1 = a.nrows * a.ncols == 1
+    b1 = b.nrows * b.ncols == 1
+    nacc = 0
+    for st, kind, val in finished:
+        if is_error(val) or not isinstance(val, PtrV) or val.obj is None:
+            continue
+        if val.obj.extra.get('exc') == 'Py_NotImplemented':
+            continue
+        pc = st.path()
+        r = val.obj
+        inplace = r is a
+        if val.null is not None:
+            pc = pc + [z3.Not(val.null)]
+        nacc += 1
+        if inplace:
+            ob('shape-rule', pc, z3.Implies(both, z3.Or(same, b1)),
+               'in-place +/-: accepted only for equal sizes or a 1 by 1 '
+               'right operand')
+        else:
+            ob('shape-rule', pc, z3.Implies(both, z3.Or(same, a1, b1)),
+               '+/-: accepted only for equal sizes or a 1 by 1 operand')
+            ob('shape-rule', pc, z3.Implies(both, z3.And(
+                r.nrows == z3.If(z3.And(a1, z3.Not(same)), b.nrows, a.nrows),
+                r.ncols == z3.If(z3.And(a1, z3.Not(same)), b.ncols, a.ncols),
+                r.id == z3.If(a.id >= b.id, a.id, b.id))),
+               '+/-: the result has the size of the operand that is not 1 '
+               'by 1 and the larger typecode')
+    ob('covered', [], z3.BoolVal(nacc > 0), 'an accepting path exists')
+    summ['accepting'] = nacc
+    return summ
+
+
+def post_mul(ex, finished, extra_obs):
+    """A * B and A *= B: scalar product when an operand is 1 by 1, otherwise
+    the matrix product, which needs A.size[1] == B.size[0]; the in-place form
+    never changes the size of A."""
+    summ = post_inplace(ex, finished, extra_obs)
+    ob = mk_ob(ex, extra_obs)
+    a, b = ex.objs['self'], ex.objs['other']
+    both = z3.And(a.ismat, b.ismat)
+    a1 = a.nrows * a.ncols == 1
+    b1 = b.nrows * b.ncols == 1
+    conf = a.ncols == b.nrows
+    nacc = 0
+    for st, kind, val in finished:
+        if is_error(val) or not isinstance(val, PtrV) or val.obj is None:
+            continue
+        if val.obj.extra.get('exc') == 'Py_NotImplemented':
+            continue
+        pc = st.path()
+        r = val.obj
+        if val.null is not None:
+            pc = pc + [z3.Not(val.null)]
+        nacc += 1
+        if r is a:
+            ob('shape-rule', pc, z3.Implies(both, z3.Or(b1, z3.And(
+                conf, b.ncols == a.ncols))),
+               'in-place *: accepted only for a 1 by 1 right operand or a '
+               'product that has the size of A')
+        else:
+            ob('shape-rule', pc, z3.Implies(both, z3.Or(a1, b1, conf)),
+               '*: accepted only for a 1 by 1 operand or conforming sizes')
+            ob('shape-rule', pc, z3.Implies(both, z3.And(
+                r.nrows == z3.If(z3.And(a1, z3.Not(conf)), b.nrows,
+                                 z3.If(z3.And(b1, z3.Not(conf)), a.nrows,
+                                       a.nrows)),
+                r.ncols == z3.If(z3.And(a1, z3.Not(conf)), b.ncols,
+                                 z3.If(z3.And(b1, z3.Not(conf)), a.ncols,
+                                       b.ncols)),
+                r.id == z3.If(a.id >= b.id, a.id, b.id))),
+               '*: the result has the size of the product (of the other '
+               'operand for a 1 by 1 factor) and the larger typecode')
+    ob('covered', [], z3.BoolVal(nacc > 0), 'an accepting path exists')
+    summ['accepting'] = nacc
+    return summ
+
+
 FUNCS = {
     'Matrix_New': {'init': init_ints, 'post': post_matrix_new,
                    'externs': {k: v for k, v in COMMON.items() if k !=
@@ -648,11 +736,11 @@ FUNCS = {
                              'externs': COMMON},
     'matrix_rem_generic': {'init': init_binary, 'post': post_inplace,
                            'externs': COMMON},
-    'matrix_add_generic': {'init': init_binary, 'post': post_inplace,
+    'matrix_add_generic': {'init': init_binary, 'post': post_addsub,
                            'externs': COMMON},
-    'matrix_sub_generic': {'init': init_binary, 'post': post_inplace,
+    'matrix_sub_generic': {'init': init_binary, 'post': post_addsub,
                            'externs': COMMON},
-    'matrix_mul_generic': {'init': init_binary, 'post': post_inplace,
+    'matrix_mul_generic': {'init': init_binary, 'post': post_mul,
                            'externs': COMMON},
     'matrix_div_generic': {'init': init_binary, 'post': post_inplace,
                            'externs': COMMON},
